@@ -1,5 +1,5 @@
 (* C01 — csvdump reproduces every on-disk block, tx, input and output field exactly. Pinned statements only: each theorem is closed by `exact` of a lemma proved in theories/. *)
-From RBP Require Import Bytes Hashes Wire Block BlockP Render Index Model ModelP StoreP CsvP EndToEnd AddrClean.
+From RBP Require Import Bytes Hashes Wire Block BlockP Render Index Model ModelP StoreP CsvP EndToEnd AddrClean OutIdx.
 From RBP Require Drive Merkle Utxo Stats OutProto Reader Published Misc.
 
 Theorem C01_compactsize_roundtrip :
@@ -82,6 +82,14 @@ Theorem C01_tx_out_row_splits_into_its_fields :
   forall (c : coin) (tid : list N) (i : N) (o : txout), wfb (out_script o) = true -> clean tid -> fields_of_row (out_row tid i (o, eval_script c (out_script o))) = [tid; dec i; dec (out_value o); hex (out_script o); match e_addr (eval_script c (out_script o)) with | Some s => s | None => [] end].
 Proof. exact out_row_fields. Qed.
 
+Theorem C01_kth_output_row_carries_index_k :
+  forall (tid : list N) (outs : list (txout * escript)) (k : nat) (oe : txout * escript), nth_error outs k = Some oe -> N.of_nat k < 2 ^ 32 -> nth_error (out_rows tid 0 outs) k = Some (out_row tid (N.of_nat k) oe).
+Proof. exact out_rows_index. Qed.
+
+Theorem C01_kth_output_row_any_start :
+  forall (tid : list N) (outs : list (txout * escript)) (i : N) (k : nat) (oe : txout * escript), nth_error outs k = Some oe -> nth_error (out_rows tid i outs) k = Some (out_row tid ((i + N.of_nat k) mod 2 ^ 32) oe).
+Proof. exact out_rows_nth. Qed.
+
 Print Assumptions C01_compactsize_roundtrip.
 Print Assumptions C01_tx_roundtrip.
 Print Assumptions C01_txid_is_stripped_hash.
@@ -102,3 +110,5 @@ Print Assumptions C01_end_to_end_csv.
 Print Assumptions C01_parsed_counts_consistent.
 Print Assumptions C01_address_never_contains_separator.
 Print Assumptions C01_tx_out_row_splits_into_its_fields.
+Print Assumptions C01_kth_output_row_carries_index_k.
+Print Assumptions C01_kth_output_row_any_start.
